@@ -122,6 +122,21 @@ static void observer_case(const std::vector<Op> &ops, pbt::Ctx &ctx)
     bool exists = false, pending = false, orphaned = false;
     int of = -1;
   } m[6];
+  // part of the case: one of the threads has drawn a long run of consecutive time stamps before the history starts (a
+  // thread that loaded a scene); stamps are process-wide state, the run makes the case self-contained
+  if (ACROSS && !ops.empty()) {
+    static const unsigned RUNS[] = {0, 0, 300, 5000, 70000};
+    const unsigned run = RUNS[(size_t)(ops[0].a + ops[0].b + ops[0].c) % 5];
+    if (run) {
+      runOn((int)(ops[0].c % 3), [run] {
+        for (unsigned i = 0; i < run; ++i) {
+          TimeStamp t;
+          (void)t;
+        }
+      });
+      ctx.label("a thread drew a long run of stamps first");
+    }
+  }
   bool multiNotify = false, createdAfterNotify = false, observableFirst = false;
   int notifiesSincePoll[6] = {};
   bool subjNotifiedEver[3] = {};
